@@ -9,6 +9,7 @@ package fpgo
 //     keeps the behaviour cannot raise an alarm.
 // (B) bounded histories from NewLinkedListQueue(): K operations + drain (directly replayable public-API runs).
 // sync.Pool.Get is nondeterministic (fresh node or any node previously Put), explored as a decision.
+// KeepNodePoolCount(n): n is a symbolic int with n <= 2 (thorough 3), unbounded below.
 
 type c06Model struct{ items []int }
 
@@ -75,7 +76,11 @@ func c06Apply(tag string, op string, q *LinkedListQueue[int], m *c06Model) {
 			q.Clear()
 			m.items = nil
 		case "KeepNodePoolCount":
-			q.KeepNodePoolCount(vfRange("keep", -1, 2))
+			// the argument is a symbolic int: every non-positive n is one path (the solver decides the n <= 0 branch for
+			// all of them at once), positive n is followed through the code's own loop up to the stated bound
+			keep := vfInt("keep")
+			vfAssume(keep <= 2+vfTier())
+			q.KeepNodePoolCount(keep)
 		case "ClearNodePool":
 			q.ClearNodePool()
 		}
